@@ -35,6 +35,7 @@ payload and list lengths `< 2^32`, labels `< 2^128`.  Outside it the Go code
 truncates (`uint32(val)`) and nothing is claimed.
 -/
 import MpcVerif.Proofs.Conn
+import MpcVerif.Proofs.ConnDuplex
 
 namespace Mpc
 open Conn
@@ -385,6 +386,284 @@ theorem C11_old_writer_gap_witness :
   rw [h] at h1
   revert h1
   decide
+
+/-! ## Both halves of one `Conn` over a full-duplex transport, with faults on the send direction
+
+`Model/ConnDuplex.lean`: an endpoint (`Local`) = send half + receive half + the
+transport endpoint both reach.  A session is ANY list of events: local typed
+sends / `Flush` / `NeedSpace` / writer-goroutine iterations - each under its OWN
+fault pattern and writer schedule -, local typed receives, bytes accepted from
+the peer (in any chunking, at any time), the peer's close. -/
+
+/-- **conn_directions_independent.**  The receive direction of a connection
+does not depend on what happens on its send direction.  Take two sessions of an
+endpoint that start with the same receive side and are the same as far as the
+receive direction is concerned (`recvView`: the same typed receives, the same
+bytes accepted from the peer, the same peer close, in the same order) - but
+with ANY typed sends, flushes, `NeedSpace` calls and writer-goroutine
+iterations interleaved anywhere, under ANY fault pattern of the transport's
+`Write` (failing, short, transient, permanent; a different one for every
+event) and any writer schedule.  Then every typed receive returns the same
+value or error in both, and the receive half ends in the same state - the same
+window, the same `Stats.Recvd`, the transport endpoint still open.  In
+particular (`evs' := recvView evs`) a failed send discards nothing the peer
+has sent: values received and the receive counter are a function of the bytes
+the peer sent, the read fragmentation and the receives only.  (`Close` is the
+one send-side call that closes the transport - on its success path; sessions
+are compared up to the local `Close`.) -/
+theorem C11_conn_directions_independent (frag : Frag) (l l' : Local) (evs evs' : List Ev)
+    (hr : l.r = l'.r) (hview : recvView evs = recvView evs')
+    (hnc : ∀ e ∈ evs, e.isClose = false) (hnc' : ∀ e ∈ evs', e.isClose = false) :
+    recvObs (Local.run false frag l evs).2 = recvObs (Local.run false frag l' evs').2 ∧
+    (Local.run false frag l evs).1.r = (Local.run false frag l' evs').1.r := by
+  obtain ⟨a1, a2⟩ := run_recvView frag evs l l hnc rfl
+  obtain ⟨b1, b2⟩ := run_recvView frag evs' l' l hnc' hr.symm
+  rw [hview] at a1 a2
+  exact ⟨by rw [a2, b2], by rw [a1, b1]⟩
+
+/-- a transport whose every `Write` fails having written nothing (the peer is gone) -/
+def allFail : Fault := fun _ => some 0
+
+/-- non-vacuity: the peer sends a byte and closes; the local side sends and flushes towards the
+dead peer, the writer goroutine runs into the failing `Write`, then the local side receives -/
+def failThenRecv : List Ev :=
+  [.peerWrite [7].toByteArray, .peerClose, .op allFail lazySched (.send (.byte 1)),
+   .op allFail lazySched .flush, .writer allFail 1, .recv .byte]
+
+example (frag : Frag) := C11_conn_directions_independent frag Local.init Local.init failThenRecv
+  (recvView failThenRecv) rfl (by simp [failThenRecv, recvView, Ev.isSend])
+  (by simp [failThenRecv, Ev.isClose]) (by simp [failThenRecv, recvView, Ev.isSend, Ev.isClose])
+
+/-- **conn_duplex_faults** (`C11_conn_duplex` with faults and with arrival
+interleaved with the receives).  The peer's bytes are accepted by the transport
+in any chunking and at any time, in rounds: after each round's chunks the
+local side receives that round's values (`RoundsOK`: every receive happens when
+its value has arrived completely; what arrived early is carried over); then the
+peer closes and one more receive of any kind follows.  Interleave ANY local
+typed sends, flushes and writer iterations under ANY fault patterns and
+schedules.  Then the typed receives return exactly the peer's values in order,
+then the end of the stream (never an error of the send direction, never a
+closed transport); all bytes of the peer are the encoding of those values, and
+`Stats.Recvd` equals the number of bytes the peer's transport accepted. -/
+theorem C11_conn_duplex_faults (frag : Frag) (l : Local) (hl : l.r = {}) (evs : List Ev) (rs : List Round)
+    (k : Kind) (hnc : ∀ e ∈ evs, e.isClose = false)
+    (hview : recvView evs = roundsEvs rs ++ [Ev.peerClose, Ev.recv k])
+    (hok : RoundsOK ByteArray.empty rs) (hlast : lastTail ByteArray.empty rs = ByteArray.empty) :
+    recvObs (Local.run false frag l evs).2 = (roundsVals rs).map Obs.got ++ [Obs.rerr RErr.eof] ∧
+    roundsBytes rs = encodeVals (roundsVals rs) ∧
+    (Local.run false frag l evs).1.r.rcv.recvd = (roundsBytes rs).size := by
+  obtain ⟨a1, a2⟩ := run_recvView frag evs l l hnc rfl
+  rw [hview] at a1 a2
+  have hd : l.r.dead = false := by rw [hl]
+  have hc : l.r.epClosed = false := by rw [hl]
+  have hi : RInv l.r.rcv := by rw [hl]; exact ⟨Nat.le_refl _, by decide, Nat.le_refl _⟩
+  have hu : l.r.rcv.unread = ByteArray.empty := by rw [hl]; decide
+  have hpend : l.r.rcv.pend = ByteArray.empty := by rw [hl]
+  have hpos : l.r.rcv.pos = 0 := by rw [hl]
+  have hrc : l.r.rcv.recvd = 0 := by rw [hl]
+  obtain ⟨r', e1, o1, i1, u1, p1, c1, _⟩ := run_rounds false frag rs l hd hc hi (by rw [hu]; exact hok)
+  rw [hu, hlast] at u1
+  have hbytes := rounds_bytes ByteArray.empty rs hok
+  rw [hlast, ByteArray.empty_append, ByteArray.append_empty] at hbytes
+  have hex := recvVal_exhausted frag k r' i1 u1
+  -- everything has been taken from the transport
+  have hsz : r'.pend.size - r'.pos = 0 := by
+    have := size_unread r'
+    rw [u1] at this
+    simp at this
+    omega
+  have hfin : (Local.run false frag { l with r := { l.r with rcv := r' } } [Ev.peerClose, Ev.recv k]).2 =
+        [Obs.skip, Obs.rerr RErr.eof] ∧
+      (Local.run false frag { l with r := { l.r with rcv := r' } } [Ev.peerClose, Ev.recv k]).1.r.rcv.recvd =
+        r'.recvd + (r'.pend.size - r'.pos) := by
+    simp [Local.run_cons, Local.run_nil, Local.step, RSide.peerClose, RSide.recv, hd, hc, hex, classify]
+  rw [Local.run_append, e1] at a1 a2
+  refine ⟨?_, hbytes, ?_⟩
+  · rw [a2]
+    simp only [recvObs_append, o1, hfin.1, recvObs]
+  · rw [a1]
+    show (Local.run false frag { l with r := { l.r with rcv := r' } } [Ev.peerClose, Ev.recv k]).1.r.rcv.recvd = _
+    rw [hfin.2]
+    have hp := i1.pos_le
+    have hps : r'.pend.size = (roundsBytes rs).size := by rw [p1, hpend, ByteArray.empty_append]
+    rw [hpos, hrc] at c1
+    omega
+
+/-- **Round trip with a failing return direction.**  B sends any operation list
+(any flush placement, any writer schedule) and closes; the transport hands B's
+`Write` chunks to A one by one.  A meanwhile sends, flushes and runs its writer
+goroutine in any way under ANY fault pattern (B may be gone: every `Write` of A
+may fail) - before, between and after the arrival of B's chunks and A's
+receives.  A's matching typed receives return exactly B's values, then the end
+of the stream; A's `Stats.Recvd` equals B's `Stats.Sent`. -/
+theorem C11_conn_duplex_faults_roundtrip (schB : Sched) (frag : Frag) (opsB : List Op)
+    (hB : ∀ v ∈ opsVals opsB, v.Valid) (l : Local) (hl : l.r = {}) (evs : List Ev) (k : Kind)
+    (hnc : ∀ e ∈ evs, e.isClose = false)
+    (hview : recvView evs =
+      (((Sender.init.run schB opsB).close schB).wire.map Ev.peerWrite ++
+        (opsVals opsB).map fun v => Ev.recv v.kind) ++ [Ev.peerClose, Ev.recv k]) :
+    recvObs (Local.run false frag l evs).2 = (opsVals opsB).map Obs.got ++ [Obs.rerr RErr.eof] ∧
+    (Local.run false frag l evs).1.r.rcv.recvd = ((Sender.init.run schB opsB).close schB).sent := by
+  obtain ⟨c1, _, _, _, c5, _⟩ := C11_conn_close_delivers schB opsB
+  let rd : Round := ⟨((Sender.init.run schB opsB).close schB).wire, opsVals opsB, ByteArray.empty⟩
+  have hok : RoundsOK ByteArray.empty [rd] :=
+    ⟨hB, by show ByteArray.empty ++ joinB _ = encodeVals (opsVals opsB) ++ ByteArray.empty
+            rw [c1, encodeAll_eq_encodeVals]; simp, trivial⟩
+  obtain ⟨t1, _, t3⟩ := C11_conn_duplex_faults frag l hl evs [rd] k hnc
+    (by rw [hview]; simp [roundsEvs, roundEvs, rd]) hok rfl
+  refine ⟨by simpa [roundsVals, rd] using t1, ?_⟩
+  rw [t3, c5]
+  simp [roundsBytes, rd]
+
+example (sch : Sched) (frag : Frag) (k : Kind) (f : Fault) :=
+  C11_conn_duplex_faults_roundtrip sch frag exampleOps exampleOps_valid Local.init rfl
+    ([Ev.op f sch (.send (.u32 42)), Ev.op f sch .flush] ++
+      (((Sender.init.run sch exampleOps).close sch).wire.map Ev.peerWrite ++
+        (opsVals exampleOps).map fun v => Ev.recv v.kind) ++ [Ev.peerClose, Ev.recv k]) k
+
+/-- non-vacuity of `RoundsOK`: a 3-byte data value whose length prefix arrives in the first round
+(together with a byte that is received at once), its body in the second -/
+example : RoundsOK ByteArray.empty
+    [⟨[[9, 0, 0].toByteArray, [0, 3].toByteArray], [.byte 9], [0, 0, 0, 3].toByteArray⟩,
+     ⟨[[1, 2, 3].toByteArray], [.data [1, 2, 3].toByteArray], ByteArray.empty⟩] :=
+  ⟨by simp [Val.Valid], by decide, by simp [Val.Valid], by decide, trivial⟩
+
+/-- **closing_writer_couples_directions_witness** (negation witness for a
+writer goroutine that closes the transport when a `Write` fails, `wc = true`
+in `Local.sendEffect`).  The peer sends the byte `07` and closes; the local side sends
+a byte and flushes towards the dead peer, its writer goroutine runs into the
+failing `Write`; then it receives.  The code as it is (`wc = false`) returns
+the peer's byte.  With the closing writer the same receive fails with
+"closed" - although without the sends (`recvView`) it returns the byte: the
+receive direction depends on the send direction, data the peer sent and closed
+behind is discarded. -/
+theorem C11_closing_writer_couples_directions_witness (frag : Frag) :
+    recvObs (Local.run false frag Local.init failThenRecv).2 = [Obs.got (.byte 7)] ∧
+    recvObs (Local.run true frag Local.init failThenRecv).2 = [Obs.rerr RErr.closed] ∧
+    recvObs (Local.run true frag Local.init (recvView failThenRecv)).2 = [Obs.got (.byte 7)] := by
+  have hview : recvView failThenRecv = [.peerWrite [7].toByteArray, .peerClose, .recv .byte] := by
+    simp [failThenRecv, recvView, Ev.isSend]
+  -- without the sends: the byte arrives and is received (whatever the writer would do)
+  have hplain : ∀ wc, recvObs (Local.run wc frag Local.init
+      [.peerWrite [7].toByteArray, .peerClose, .recv .byte]).2 = [Obs.got (.byte 7)] := by
+    intro wc
+    let l1 : Local := { r := { rcv := { pend := ByteArray.empty ++ [7].toByteArray }, inClosed := true } }
+    have h1 : Local.run wc frag Local.init [.peerWrite [7].toByteArray, .peerClose, .recv .byte] =
+        ((Local.run wc frag l1 [.recv .byte]).1, Obs.skip :: Obs.skip :: (Local.run wc frag l1 [.recv .byte]).2) := by
+      simp [Local.run_cons, Local.step, RSide.peerWrite, RSide.peerClose, Local.init, l1]
+    obtain ⟨r', e, _⟩ := run_recvs wc frag [.byte 7] (by simp [Val.Valid]) l1 rfl rfl
+      ⟨Nat.le_refl _, by decide, by decide⟩ ByteArray.empty (by decide)
+    rw [h1]
+    have e' : Local.run wc frag l1 [.recv .byte] = _ := e
+    rw [e']
+    simp [recvObs]
+  refine ⟨?_, ?_, by rw [hview]; exact hplain true⟩
+  · have := (C11_conn_directions_independent frag Local.init Local.init failThenRecv (recvView failThenRecv) rfl
+      (by simp [failThenRecv, recvView, Ev.isSend]) (by simp [failThenRecv, Ev.isClose])
+      (by simp [failThenRecv, recvView, Ev.isSend, Ev.isClose])).1
+    rw [this, hview]
+    exact hplain false
+  · -- the closing writer: after the failed Write the endpoint is closed
+    let l4 : Local := (Local.run true frag Local.init (failThenRecv.take 5)).1
+    have hsplit : failThenRecv = failThenRecv.take 5 ++ [.recv .byte] := by simp [failThenRecv]
+    have c1 : l4.r.epClosed = true := by
+      simp [l4, failThenRecv, Local.run_cons, Local.run_nil, Local.step, RSide.peerWrite, RSide.peerClose,
+        Local.init, sendEffect_epClosed, sendEffect_snd]
+      decide
+    have c2 : l4.r.dead = false := by
+      simp [l4, failThenRecv, Local.run_cons, Local.run_nil, Local.step, RSide.peerWrite, RSide.peerClose,
+        Local.init, sendEffect_dead]
+    have c3 : l4.r.rcv = { pend := ByteArray.empty ++ [7].toByteArray } := by
+      simp [l4, failThenRecv, Local.run_cons, Local.run_nil, Local.step, RSide.peerWrite, RSide.peerClose,
+        Local.init, sendEffect_rcv]
+    have c4 : l4.r.inClosed = true := by
+      simp [l4, failThenRecv, Local.run_cons, Local.run_nil, Local.step, RSide.peerWrite, RSide.peerClose,
+        Local.init, sendEffect_inClosed]
+    have hobs : recvObs (Local.run true frag Local.init (failThenRecv.take 5)).2 = [] := by
+      simp [failThenRecv, Local.run_cons, Local.run_nil, Local.step, recvObs]
+    have hex := recvVal_exhausted frag .byte { pend := (ByteArray.empty ++ [7].toByteArray).extract 0 0 }
+      ⟨Nat.le_refl _, by decide, by decide⟩ (by decide)
+    have hlast : (l4.step true frag (.recv .byte)).2 = Obs.rerr RErr.closed := by
+      simp only [Local.step, RSide.recv, c1, c2, c3, c4, Bool.false_eq_true, if_false, if_true]
+      rw [hex]
+      simp [classify]
+    rw [hsplit, Local.run_append, recvObs_append, hobs]
+    simp only [Local.run_cons, Local.run_nil, List.nil_append]
+    show recvObs [(l4.step true frag (.recv .byte)).2] = _
+    rw [hlast]
+    rfl
+
+/-- **The session model is two endpoint sessions.**  In the two-endpoint
+model `Sess` that the driver runs against the real code (two `Conn`s over two
+independent byte queues; a `Write` towards a closed endpoint fails at once or
+after `grace` accepted-and-discarded `Write`s), for every script of steps
+(either side: typed send / `Flush` / `NeedSpace`, typed receive, `Close`, in
+any order) each side's state and everything its calls returned is a session
+`Local.run` of that endpoint for some event list - so the theorems above hold
+for every side of every session the correspondence runs. -/
+theorem C11_sess_sides_are_local_runs (fragA fragB : Frag) (script : List (Bool × Act)) (gAB gBA : Nat) :
+    let s := Sess.run fragA fragB { graceAB := gAB, graceBA := gBA } script
+    (∃ evA, (s.a, s.obsA) = Local.run false fragA Local.init evA) ∧
+    (∃ evB, (s.b, s.obsB) = Local.run false fragB Local.init evB) := by
+  intro s
+  have ext : ∀ (frag : Frag) (l : Local) (os : List Obs) (ev es : List Ev),
+      (l, os) = Local.run false frag Local.init ev →
+      ((Local.run false frag l es).1, os ++ (Local.run false frag l es).2) =
+        Local.run false frag Local.init (ev ++ es) := by
+    intro frag l os ev es h
+    rw [Local.run_append, ← h]
+  -- one action of endpoint x (peer y) extends both sessions
+  have side : ∀ (fx fy : Frag) (x y : Local) (ox oy : List Obs) (g d : Nat) (act : Act),
+      (∃ ev, (x, ox) = Local.run false fx Local.init ev) → (∃ ev, (y, oy) = Local.run false fy Local.init ev) →
+      (∃ ev, ((sideStep fx fy x y g d act).x, ox ++ (sideStep fx fy x y g d act).obsX) =
+        Local.run false fx Local.init ev) ∧
+      (∃ ev, ((sideStep fx fy x y g d act).y, oy ++ (sideStep fx fy x y g d act).obsY) =
+        Local.run false fy Local.init ev) := by
+    intro fx fy x y ox oy g d act ⟨ex, hx⟩ ⟨ey, hy⟩
+    have hdel : ∀ (chunks : List ByteArray) (ca : Bool),
+        ∃ ev, ((deliver fy y g d chunks ca).1, oy ++ (deliver fy y g d chunks ca).2.2.2) =
+          Local.run false fy Local.init ev := by
+      intro chunks ca
+      by_cases hyc : y.r.epClosed = true
+      · have := ext fy y oy ey (if ca then [Ev.peerClose] else []) hy
+        exact ⟨_, by simpa [deliver, hyc] using this⟩
+      · have := ext fy y oy ey (chunks.map Ev.peerWrite ++ if ca then [Ev.peerClose] else []) hy
+        exact ⟨_, by simpa [deliver, hyc] using this⟩
+    cases act with
+    | recv k => exact ⟨⟨_, ext fx x ox ex [.recv k] hx⟩, ⟨ey, by simpa [sideStep] using hy⟩⟩
+    | op o =>
+      refine ⟨?_, hdel _ _⟩
+      have h1 := ext fx x ox ex [.op (linkFault x.r.epClosed y.r.epClosed g x.snd.wire.length) lazySched o] hx
+      have h2 := ext fx _ _ _ [.writer (linkFault x.r.epClosed y.r.epClosed g x.snd.wire.length)
+        (Local.run false fx x [.op (linkFault x.r.epClosed y.r.epClosed g x.snd.wire.length) lazySched o]).1.snd.queue.length] h1
+      exact ⟨_, by simpa [sideStep, List.append_assoc] using h2⟩
+    | close =>
+      exact ⟨⟨_, ext fx x ox ex [.close (linkFault x.r.epClosed y.r.epClosed g x.snd.wire.length) lazySched] hx⟩,
+        hdel _ _⟩
+  have inv : ∀ (script : List (Bool × Act)) (s : Sess),
+      ((∃ evA, (s.a, s.obsA) = Local.run false fragA Local.init evA) ∧
+       (∃ evB, (s.b, s.obsB) = Local.run false fragB Local.init evB)) →
+      ((∃ evA, ((Sess.run fragA fragB s script).a, (Sess.run fragA fragB s script).obsA) =
+          Local.run false fragA Local.init evA) ∧
+       (∃ evB, ((Sess.run fragA fragB s script).b, (Sess.run fragA fragB s script).obsB) =
+          Local.run false fragB Local.init evB)) := by
+    intro script
+    induction script with
+    | nil => intro s h; exact h
+    | cons st rest ih =>
+      intro s ⟨hA, hB⟩
+      show (∃ evA, ((Sess.run fragA fragB (s.step fragA fragB st) rest).a, _) = _) ∧ _
+      apply ih
+      unfold Sess.step
+      split
+      · obtain ⟨h1, h2⟩ := side fragB fragA s.b s.a s.obsB s.obsA s.graceBA s.discBA st.2 hB hA
+        exact ⟨h2, h1⟩
+      · exact side fragA fragB s.a s.b s.obsA s.obsB s.graceAB s.discAB st.2 hA hB
+  exact inv script _ ⟨⟨[], rfl⟩, ⟨[], rfl⟩⟩
+
+example (fragA fragB : Frag) := C11_sess_sides_are_local_runs fragA fragB
+  [(true, .op (.send (.byte 7))), (true, .close), (false, .op (.send (.u32 1))), (false, .op .flush),
+   (false, .recv .byte), (false, .close)] 0 1
 
 /-- The fixed-width encodings are big-endian and decode to the value sent
 (what `ReceiveUint16/32/Label` compute from the window). -/
